@@ -20,7 +20,7 @@ be cyclic (a form that draws itself); `Model/GState.lean` sees only trees.
 External code (parameters): the content-stream parser (a form's content arrives as the
 parsed operation list, or `none` when the parser fails), stream decoding (a stream that
 fails to decode is `Obj.other`), glyph advances (`adv`), fonts.  Not modelled: operators
-outside the set of C08 — in particular `Ts` and `TJ`, which do move text, must not occur.
+outside the set of C08 (they touch nothing that is observed here).
 
 Core Lean only.
 -/
@@ -41,7 +41,10 @@ inductive Operand (α : Type) where
   | name (n : Name)
   /-- `core.String`; strings are identified by a number, as in `Op.Tj` -/
   | str (sid : Nat)
-  /-- array, dictionary, boolean, null -/
+  /-- `core.Array`, as far as `showTextArray` looks at it: the elements that are strings or
+  numbers, in order (elements of any other type are skipped by its `switch`) -/
+  | arr (items : List (TJItem α))
+  /-- dictionary, boolean, null -/
   | other
 deriving DecidableEq, Repr
 
@@ -49,7 +52,7 @@ deriving DecidableEq, Repr
 whose case does not touch what is observed here (`w`, `RG`, `rg`, `Tr`) or that has no case
 (`re`, `f`, `gs`, …). -/
 inductive Opr where
-  | q | Q | cm | BT | ET | Tf | Tc | Tw | Tz | TL | Tm | Td | TD | Tstar | Tj | quote | dquote | Do
+  | q | Q | cm | BT | ET | Tf | Tc | Tw | Tz | TL | Ts | Tm | Td | TD | Tstar | Tj | TJ | quote | dquote | Do
   | other
 deriving DecidableEq, Repr
 
@@ -113,6 +116,8 @@ def decodeOp (r : RawOp α) : Decoded α :=
   | .Tz, _ => .ops []
   | .TL, [.num l] => .ops [.TL l]
   | .TL, _ => .ops []
+  | .Ts, [.num r] => .ops [.Ts r]
+  | .Ts, _ => .ops []
   | .Tm, ops => if ops.length = 6 then .ops [.Tm (operandsToMatrix ops)] else .ops []
   -- `tx, _ := toFloat(...)`: two operands of any type
   | .Td, [x, y] => .ops [.Td (toFloatD x) (toFloatD y)]
@@ -122,6 +127,9 @@ def decodeOp (r : RawOp α) : Decoded α :=
   | .Tstar, _ => .ops [.Tstar]
   | .Tj, [.str sid] => .ops [.Tj sid]
   | .Tj, _ => .ops []
+  -- one operand, an array
+  | .TJ, [.arr items] => .ops [.TJ items]
+  | .TJ, _ => .ops []
   -- `e.gs.NextLine()` comes before the operand check
   | .quote, [.str sid] => .ops [.quote sid]
   | .quote, _ => .ops [.Tstar]
@@ -150,7 +158,9 @@ def encodeOp (fontName : Name) : Op α → Option (RawOp α)
   | .Tc c => some ⟨.Tc, [.num c]⟩
   | .Tw w => some ⟨.Tw, [.num w]⟩
   | .Tz z => some ⟨.Tz, [.num z]⟩
+  | .Ts r => some ⟨.Ts, [.num r]⟩
   | .Tj sid => some ⟨.Tj, [.str sid]⟩
+  | .TJ items => some ⟨.TJ, [.arr items]⟩
   | .quote sid => some ⟨.quote, [.str sid]⟩
   | .dquote aw ac sid => some ⟨.dquote, [.num aw, .num ac, .str sid]⟩
   | .form _ _ => none
@@ -283,12 +293,20 @@ structure XState (α : Type) where
   resources : Option Res
   acct : Acct
 
-/-- the string shown by a text-showing operator -/
-def opSid : Op α → Nat
-  | .Tj sid => sid
-  | .quote sid => sid
-  | .dquote _ _ sid => sid
-  | _ => 0
+/-- the strings shown by a text-showing operator, in order -/
+def opSids : Op α → List Nat
+  | .Tj sid => [sid]
+  | .quote sid => [sid]
+  | .dquote _ _ sid => [sid]
+  | .TJ items => items.filterMap fun | .str sid => some sid | .num _ => none
+  | _ => []
+
+/-- the fragments of one operator with the identity of their strings (a fragment beyond
+the list of strings — there is none — would get 0) -/
+def tagShows : List Nat → List (Show α) → List (Frag α)
+  | _, [] => []
+  | [], sh :: rest => ⟨0, sh⟩ :: tagShows [] rest
+  | sid :: sids, sh :: rest => ⟨sid, sh⟩ :: tagShows sids rest
 
 section
 variable [Lean.Grind.CommRing α] [DecidableEq α] [LT α] [DecidableLT α]
@@ -299,7 +317,7 @@ def stepOps (adv : Adv α) : List (Op α) → State α → State α × List (Fra
   | op :: rest, s =>
     let r := stepBasic adv op s
     let r2 := stepOps adv rest r.1
-    (r2.1, r.2.1.map (Frag.mk (opSid op)) ++ r2.2.1, r.2.2 || r2.2.2)
+    (r2.1, tagShows (opSids op) r.2.1 ++ r2.2.1, r.2.2 || r2.2.2)
 
 /-- `processOperation`; `invoke` is `invokeXObject` (whose error is dropped) -/
 def processOperation (adv : Adv α) (invoke : Name → XState α → XState α × List (Frag α))
